@@ -33,8 +33,16 @@ def floor (x : UInt32) : UInt32 :=
     else if feq trunc x then x
     else trunc
 
-/-- float.rs:133-137 `fallback::rem_euclid`: `x % m + (x.is_sign_negative() as u32 as f32) * m`. -/
+/-- float.rs `fallback::rem_euclid` (after fix e9e07c1; also what the libm back end re-exports):
+`let r = x % m; if r < 0.0 { r + abs(m) } else { r }` – as in std; a negative multiple of `m` has the
+remainder −0.0, which is not shifted up to `m`. -/
 def remEuclid (x m : UInt32) : UInt32 :=
+  let r := rem x m
+  if lt r 0 then add r (abs m) else r
+
+/-- The formula before e9e07c1, `x % m + (x.is_sign_negative() as u32 as f32) * m`; kept only to state
+the repaired defect (`Props.C20.rem_euclid_old_returns_m`). -/
+def remEuclidOld (x m : UInt32) : UInt32 :=
   add (rem x m) (mul (boolToF32 (signBit x)) m)
 
 /-- micromath-2.1.0 src/float/floor.rs: `let mut res = (self.0 as i32) as f32; if self.0 < res { res -= 1.0 }`
